@@ -73,6 +73,7 @@ class C08RoundTrip1D(Harness):
                         yield f"j1d-{b}-{dt}-k{int(keep)}-n{int(nanmiss)}", dict(binning=b, dtype=dt, keep_missed=keep, nanmiss=nanmiss)
         yield "j1d-file-static", dict(binning="static", dtype="int64", keep_missed=True, nanmiss=False, file=True)
         yield "j1d-file-fixed", dict(binning="fixed_adaptive", dtype="float64", keep_missed=True, nanmiss=False, file=True)
+        yield "j1d-file-static-indent", dict(binning="static", dtype="int64", keep_missed=True, nanmiss=False, file=True, indent=2)
 
     def declare(self, cx, p):
         kind = "int" if p["dtype"].startswith("int") else "real"
@@ -103,7 +104,7 @@ class C08RoundTrip1D(Harness):
             import tempfile
 
             path = os.path.join(tempfile.gettempdir(), f"symx-c08-{os.getpid()}.json")
-            text = E.attempt(h.to_json, path)
+            text = E.attempt(h.to_json, path, indent=p["indent"]) if p.get("indent") else E.attempt(h.to_json, path)
             g = E.attempt(io.load_json, path)
             if not E.sym and os.path.exists(path):
                 os.remove(path)
